@@ -718,18 +718,18 @@ theorem unlinkat_rmdir_ok (st st' : FS) (p : Bytes) (h : unlinkat st p true = (s
             refine ⟨loc, tr, rfl, ?_, hf.1, rfl, rfl⟩
             intro hl; simp [hl] at h1
 
-theorem removeAllN_file (fuel : Nat) (b : Bytes) : (removeAllN fuel (.file b)).2 ≠ .ok () := by
+theorem removeAllN_file (exact : Bool) (fuel : Nat) (b : Bytes) : (removeAllN exact fuel (.file b)).2 ≠ .ok () := by
   cases fuel with
   | zero => show (Except.error E.unmodelled : Out Unit) ≠ .ok (); intro h; cases h
   | succ n => show (Except.error (E.os ENOTDIR) : Out Unit) ≠ .ok (); intro h; cases h
 
 /-- **remove_dir_all_post** -/
-theorem remove_dir_all_post' (st st' : FS) (p : Bytes) (h : removeDirAll st p = (st', .ok ())) :
+theorem remove_dir_all_post' (exact : Bool) (st st' : FS) (p : Bytes) (h : removeDirAllOn exact st p = (st', .ok ())) :
     ∃ loc, (∃ tr, parsePath st p = .ok (loc, tr)) ∧ loc ≠ [] ∧
       (∃ es, getAt st.root loc = some (.dir es)) ∧
       (∀ q, loc <+: q → getAt st'.root q = none) ∧
       (∀ q, ¬ loc <+: q → view st'.root q = view st.root q) := by
-  unfold removeDirAll at h
+  unfold removeDirAllOn at h
   have hfl : (O_CLOEXEC ||| O_RDONLY) = F_RD := by decide
   rw [hfl] at h
   cases hop : openat st p F_RD with
@@ -746,7 +746,7 @@ theorem remove_dir_all_post' (st st' : FS) (p : Bytes) (h : removeDirAll st p = 
       | some d =>
         rw [hg] at h
         simp only at h
-        cases hr : removeAllN (depth d + 1) d with
+        cases hr : removeAllN exact (depth d + 1) d with
         | mk d' res =>
           rw [hr] at h
           cases res with
@@ -766,7 +766,7 @@ theorem remove_dir_all_post' (st st' : FS) (p : Bytes) (h : removeDirAll st p = 
                 obtain ⟨b, hb'⟩ := hfile hb2
                 have hdb : d = .file b := by rw [hb'] at hg; exact (Option.some.inj hg).symm
                 rw [hdb] at hr
-                exact absurd (congrArg Prod.snd hr) (removeAllN_file _ b)
+                exact absurd (congrArg Prod.snd hr) (removeAllN_file _ _ b)
             refine ⟨hd.loc, ⟨tr, hpp⟩, hne, hisdir, ?_, ?_⟩
             · intro q hq
               obtain ⟨m, rfl⟩ := hq
